@@ -17,5 +17,7 @@ Definition items : list (string * kind) := [
   ("aisle", FieldCell);
   ("aisle", UnsafeBlock);
   ("aisle", UnsafeBlock);
+  ("convert", FieldSync);
+  ("convert", FieldSync);
   ("quantity", StaticLazyLock)
 ].
